@@ -45,8 +45,7 @@ def observe(P, depth, cap, mode, seed=0, fresh_env=False):
     rec = {"P": P, "keys": upj.keys_of(P), "depth": 0, "init": {"built": False, "exc": "none"}, "obs": [], "skip": ""}
     env = up.environment.Environment() if fresh_env else None
     try:
-        with time_limit(20):
-            problem = upj.build(P, env)
+        problem = call_limited(lambda: upj.build(P, env), 20, 10)
     except ImplTimeout:
         rec["skip"] = "build-timeout"
         return rec
